@@ -511,6 +511,49 @@ def inline_helpers(cls, fn, keep=(), depth=3):
             setattr(holder, attr, ref)
         return rep
 
+    SAFE_ABOVE = (ast.Call, ast.BinOp, ast.UnaryOp, ast.Compare, ast.Subscript, ast.Attribute, ast.Tuple, ast.List, ast.keyword, ast.Starred, ast.Dict)
+    PURE = (ast.Name, ast.Constant, ast.Attribute)
+
+    def hoist_nested(s, level):
+        """inlinable helper calls nested inside the expression of a simple statement (`x = min(a, self.h(b))`) are computed into temporaries in front of it, when nothing
+        with a side effect or a short-circuit sits between the statement and the call (only calls / arithmetic / subscripts above it, only names / constants / attributes
+        evaluated before it)"""
+        if level <= 0 or not isinstance(s, (ast.Assign, ast.Expr, ast.Return, ast.AugAssign)):
+            return None
+        root = s.value
+        if root is None:
+            return None
+        pre = []
+
+        def visit(n, top):
+            for fname, val in ast.iter_fields(n):
+                kids = val if isinstance(val, list) else [val]
+                for idx, k in enumerate(kids):
+                    if not isinstance(k, ast.AST):
+                        continue
+                    if isinstance(k, ast.Call) and not (top and k is root):
+                        nm = call_name(k) or ''
+                        h = meths.get(nm[5:]) if nm.startswith('self.') and nm.count('.') == 1 else None
+                        if h is not None and h.name not in keep and simple(h):
+                            earlier = kids[:idx] if isinstance(val, list) else []
+                            if all(isinstance(e, PURE) for e in earlier if isinstance(e, ast.AST)) and all(isinstance(a, PURE + (ast.Constant,)) or not any(isinstance(y, ast.Call) for y in ast.walk(a)) for a in k.args):
+                                tmp_counter[0] += 1
+                                tn = '_inl%d' % tmp_counter[0]
+                                rep = expand(k, 'assign', [ast.Name(id=tn, ctx=ast.Store())])
+                                if rep is not None:
+                                    pre.extend(rep)
+                                    ref = ast.Name(id=tn, ctx=ast.Load(), lineno=getattr(k, 'lineno', 0), col_offset=0)
+                                    if isinstance(val, list):
+                                        val[idx] = ref
+                                    else:
+                                        setattr(n, fname, ref)
+                                    continue
+                    if isinstance(k, SAFE_ABOVE):
+                        visit(k, False)
+        if isinstance(root, SAFE_ABOVE):
+            visit(root, True)
+        return pre or None
+
     def walk(stmts, level):
         res = []
         for s in stmts:
@@ -518,6 +561,9 @@ def inline_helpers(cls, fn, keep=(), depth=3):
             pre = hoist_test(s, level)
             if pre is not None:
                 res.extend(walk(pre, level - 1))
+            pre2 = hoist_nested(s, level)
+            if pre2 is not None:
+                res.extend(walk(pre2, level - 1))
             if level > 0:
                 if isinstance(s, ast.Expr) and isinstance(s.value, ast.Call):
                     rep = expand(s.value, 'expr', None)
